@@ -37,7 +37,7 @@ m("str-prefix-strip", "_source_file.py", "                return code[len(prefix
 m("bytes-as-str", "_utils.py", "            if isinstance(s, str) and (", "            if isinstance(s, (str, bytes)) and len(s) > 3 and (", ["C12"], "long multi-line bytes go through triple_quote")
 m("set-sort-dedupe", "_code_repr.py", "    set_values = list(map(repr, set_values))", "    set_values = list(dict.fromkeys(r[:3] for r in map(repr, set_values)))", ["C01", "C16"], "set members truncated")
 m("dict-create-key", "_snapshot/dict_value.py", 'f"{self._file._value_to_code(k)}: {v._new_code()}"', 'f"{self._file._value_to_code(str(k) if isinstance(k, int) else k)}: {v._new_code()}"', ["C01"], "int keys of created sub-snapshots become str")
-m("min-create-first", "_snapshot/min_max_value.py", "            if not self.cmp(self._new_value, other):\n                self._new_value = clone(other)", "            pass", ["C01", "C05"], "bound keeps the first value instead of the extreme")
+m("min-create-first", "_snapshot/min_max_value.py", "        elif not self.cmp(self._new_value, other):\n            self._new_value = clone(other)", "        elif False:\n            pass", ["C01", "C05"], "bound keeps the first value instead of the extreme")
 m("collection-dedupe-type", "_snapshot/collection_value.py", "            if item not in self._new_value:", "            if repr(item) not in map(repr, self._new_value) and len(self._new_value) < 3:", ["C01", "C05"], "`in` list drops the 4th member")
 
 
@@ -53,7 +53,7 @@ m("eq-merge-keeps-old-leaf", "_adapter/value_adapter.py", "        yield Replace
 
 
 # ---- C05
-m("minmax-swap", "_snapshot/min_max_value.py", '            flag = "fix"\n        elif not self.cmp(self._new_value, self._old_value):\n            flag = "trim"', '            flag = "trim"\n        elif not self.cmp(self._new_value, self._old_value):\n            flag = "fix"', ["C05"], "fix/trim swapped for bounds")
+m("minmax-swap", "_snapshot/min_max_value.py", '            flag = "fix"\n        elif not cmp(self._new_value, self._old_value):\n            flag = "trim"', '            flag = "trim"\n        elif not cmp(self._new_value, self._old_value):\n            flag = "fix"', ["C05"], "fix/trim swapped for bounds")
 m("collection-trim-pos", "_snapshot/collection_value.py", "            if old_value not in self._new_value:", "            if old_value not in self._new_value[:1]:", ["C05"], "trim keeps only members equal to the first tested value")
 m("dict-no-create", "_snapshot/dict_value.py", '                "create",\n                self._file,', '                "fix",\n                self._file,', ["C05"], "new sub-snapshot keys are flagged fix instead of create")
 m("update-rewrites-value", "_snapshot/min_max_value.py", '            flag = "update"', '            flag = "update"\n            new_token = value_to_token(self._old_value + 1 if isinstance(self._old_value, int) else self._old_value)', ["C05"], "an update of a bound changes its value")
@@ -72,11 +72,11 @@ m("dictvalue-child-shared", "_snapshot/dict_value.py", "        if index not in 
 
 # ---- C08
 m("token-quote-sensitive", "_utils.py", """            ) and self.string.replace("'", '"') == other.string.replace("'", '"')""", "            ) and self.string == other.string", ["C08"], "string tokens compared quote-sensitively: perpetual update")
-m("no-skip-trailing-comma", "_utils.py", "    return skip_trailing_comma(normalize_strings(token_sequence))", "    return normalize_strings(token_sequence)", ["C08"], "trailing commas make tokens differ: perpetual update of multi-line values")
-m("no-concat-normalize", "_utils.py", "    return skip_trailing_comma(normalize_strings(token_sequence))", "    return skip_trailing_comma(token_sequence)", ["C08"], "implicit string concatenation not merged")
+m("no-skip-trailing-comma", "_utils.py", "    return skip_complex_parens(skip_trailing_comma(normalize_strings(token_sequence)))", "    return skip_complex_parens(normalize_strings(token_sequence))", ["C08"], "trailing commas make tokens differ: perpetual update of multi-line values")
+m("no-concat-normalize", "_utils.py", "    return skip_complex_parens(skip_trailing_comma(normalize_strings(token_sequence)))", "    return skip_complex_parens(skip_trailing_comma(token_sequence))", ["C08"], "implicit string concatenation not merged")
 m("complex-parens-again", "_utils.py", "        result = result[1:-1]", "        pass", ["C08"], "revert of the complex parentheses fix")
 m("trim-keeps-one", "_snapshot/collection_value.py", "            if old_value not in self._new_value:", "            if old_value not in self._new_value and old_value != self._old_value[0]:", ["C08", "C05"], "trim never removes the first member... second run still wants to trim? (no: stays) -> C05")
-m("minmax-trim-halfway", "_snapshot/min_max_value.py", "        new_token = value_to_token(self._new_value)\n        if not self.cmp(self._old_value, self._new_value):", "        if self.cmp(self._old_value, self._new_value) and self._old_value != self._new_value and isinstance(self._old_value, int) and isinstance(self._new_value, int):\n            self._new_value = (self._old_value + self._new_value) // 2 if abs(self._old_value - self._new_value) > 1 else self._new_value\n        new_token = value_to_token(self._new_value)\n        if not self.cmp(self._old_value, self._new_value):", ["C08", "C05"], "trim of an int bound moves only halfway: a second run trims again")
+m("minmax-trim-halfway", "_snapshot/min_max_value.py", "        new_token = value_to_token(self._new_value)\n        if not cmp(self._old_value, self._new_value):", "        if cmp(self._old_value, self._new_value) and self._old_value != self._new_value and type(self._old_value) is int and type(self._new_value) is int:\n            self._new_value = (self._old_value + self._new_value) // 2 if abs(self._old_value - self._new_value) > 1 else self._new_value\n        new_token = value_to_token(self._new_value)\n        if not cmp(self._old_value, self._new_value):", ["C08", "C05"], "trim of an int bound moves only halfway: a second run trims again")
 
 
 # ---- C09
@@ -109,13 +109,13 @@ m("key-without-lasti", "_inline_snapshot.py", "    key = id(frame.f_code), frame
 m("key-by-line", "_inline_snapshot.py", "    key = id(frame.f_code), frame.f_lasti", "    key = frame.f_code.co_filename.rsplit('/', 1)[-1][:3], frame.f_lineno, frame.f_lasti", ["C14"], "sites keyed by file-name prefix+line+offset: identical layout in two files collides")
 m("reeval-no-recursion", "_snapshot/generic_value.py", "                for old_item, new_item in zip(old_items, new_items):\n                    re_eval(old_item.value, old_item.node, new_item.value)", "                pass", ["C14"], "changed nested leaves are not detected")
 m("dict-reeval-dropped", "_snapshot/dict_value.py", "        super()._re_eval(value, context)\n", "        pass\n", ["C14"], "sub-snapshot arguments may change silently")
-m("minmax-no-aggregate-second-loop", "_snapshot/min_max_value.py", "        return self._return(self.cmp(self._visible_value(), other))", "        return self._return(self.cmp(self._visible_value(), other)) if not isinstance(other, tuple) or other[1] != 3 else True", [], "informational")
+m("complex-compare-parens-revert", "_utils.py", "    return skip_complex_parens(skip_trailing_comma(normalize_strings(token_sequence)))", "    return skip_trailing_comma(normalize_strings(token_sequence))", ["C08"], "revert of the complex-parentheses token normalisation")
 m("collection-shared-list", "_snapshot/collection_value.py", "            self._new_value = [clone(item)]", "            self._new_value = CollectionValue._shared = getattr(CollectionValue, '_shared', None) or [clone(item)]", ["C14", "C05"], "all `in` snapshots share one member list")
 
 
 # ---- C17
 m("no-clone-contains", "_snapshot/collection_value.py", "                self._new_value.append(clone(item))", "                self._new_value.append(item)", ["C17"], "`in` members recorded by reference")
-m("no-clone-minmax", "_snapshot/min_max_value.py", "            if not self.cmp(self._new_value, other):\n                self._new_value = clone(other)", "            if not self.cmp(self._new_value, other):\n                self._new_value = other", ["C17"], "later extreme values recorded by reference")
+m("no-clone-minmax", "_snapshot/min_max_value.py", "        elif not self.cmp(self._new_value, other):\n            self._new_value = clone(other)", "        elif not self.cmp(self._new_value, other):\n            self._new_value = other", ["C17"], "later extreme values recorded by reference")
 m("no-clone-eq", "_snapshot/eq_value.py", "self._ast_node, clone(other)))", "self._ast_node, other))", ["C17"], "== value recorded by reference")
 m("shallow-copy", "_snapshot/generic_value.py", "    new = copy.deepcopy(obj)", "    new = copy.copy(obj)", ["C17"], "shallow copy: nested mutation leaks")
 m("no-selfcheck", "_snapshot/generic_value.py", "    if not obj == new:", "    if False:", ["C17"], "unequal copies are recorded silently")
@@ -126,7 +126,7 @@ m("set-sort-off", "_code_repr.py", "    set_values = list(map(repr, set_values))
 m("set-sort-by-hash", "_code_repr.py", "    if not is_sorted:\n        set_values = sorted(set_values)", "    if not is_sorted:\n        set_values = sorted(set_values, key=hash)", ["C16"], "non-orderable sets sorted by hash of their text")
 m("partial-order-revert", "_code_repr.py", "        is_sorted = all(a < b or a == b for a, b in zip(set_values, set_values[1:]))", "        is_sorted = True", ["C16"], "revert of the partial-order fix")
 m("noblack-different-tokens", "_format.py", "        return text\n\n    with warnings.catch_warnings():", "        return text.replace('frozenset()', 'frozenset([])')\n\n    with warnings.catch_warnings():", ["C16"], "without black a different expression is generated")
-m("format-cmd-dedent", "_format.py", '        return result.stdout.decode("utf-8")', '        return result.stdout.decode("utf-8").replace("True", "1")', ["C16"], "format-command path yields a different syntax tree (True -> 1)")
+m("format-cmd-dedent", "_format.py", "        return formatted_text", '        return formatted_text.replace("True", "1")', ["C16"], "format-command path yields a different syntax tree (True -> 1)")
 
 
 # ---- C03
@@ -211,6 +211,21 @@ m("nonzero-exit-ignored", "_format.py", "        if result.returncode != 0:", " 
 m("write-in-two-steps", "_rewrite_code.py", '            code.write(new_code.encode())', '            data = new_code.encode()\n            code.write(data[: len(data) // 2])\n            code.flush()\n            self._check()\n            code.write(data[len(data) // 2 :])', ["C15"], "the content is written in two steps with a call in between (fault there leaves half a file)")
 
 
+# ---- reverts of further fix commits
+m("flag-empty-revert", "_code_repr.py", "    if not members:", "    if False:", ["C01"], "revert: Flag without members")
+m("lone-string-docstring-revert", "_source_file.py", "        if len(tokens) == 1 and tokens[0].type == token.STRING:", "        if False:", ["C01", "C12"], "revert: lone string formatted as docstring")
+m("paren-elements-revert", "_change.py", '            prev_token.string == "("\n            and next_token.string == ")"\n            and prev_token.index > left_brace.index', '            False and prev_token.string == "("\n            and next_token.string == ")"\n            and prev_token.index > left_brace.index', ["C02"], "revert: parenthesized elements")
+m("positional-args-revert", "_adapter/generic_call_adapter.py", "        if isinstance(pos_or_name, str):\n            return getattr(value, pos_or_name)\n        else:\n            return value[pos_or_name]", "        assert isinstance(pos_or_name, str)\n        return getattr(value, pos_or_name)", ["C02"], "revert: positional namedtuple arguments")
+m("complex-negzero-revert", "_code_repr.py", "    if real_repr(eval(result)) != result:", "    if False:", ["C08"], "revert: negative-zero complex numbers")
+m("number-token-value-revert", "_utils.py", "        elif self.type == other.type == token.NUMBER:", "        elif False:", ["C08"], "revert: number tokens compared by value")
+m("normalize-new-tokens-revert", "_source_file.py", "        return self._token_of_node(node) != list(normalize(new_tokens))", "        return self._token_of_node(node) != new_tokens", ["C08"], "revert: generated tokens normalised before comparison")
+m("reeval-structure-revert", "_snapshot/generic_value.py", "            if isinstance(old_value, dict) and list(old_value) != list(value):", "            if False:", ["C14"], "revert: changed dict keys are accepted silently")
+m("crlf-fix-lone-cr", "_rewrite_code.py", '        if isinstance(newlines, str) and newlines != "\\n":', '        if newlines == "\\r\\n":', ["C03"], "only CRLF is preserved, lone CR files become LF")
+m("minmax-count-revert", "_snapshot/min_max_value.py", "        if ignore_old_value() or state().update_flags.create:", "        if ignore_old_value() or state().update_flags.create:\n            return True\n        if False:", ["C07"], "revert: failing bounds under fix/update are green")
+m("persist-star-revert2", "_external.py", '            name = f"{stem}*{dot}{suffix}"', '            name = f"{stem}{dot}{suffix}"', ["C13"], "revert variant: full-hash names not globbed")
+m("run-inline-external-import-only", "testing/_example.py", '                    if used_hasrepr(tree):\n                        required_imports.append("HasRepr")', '                    if used_hasrepr(tree) and used_externals(tree):\n                        required_imports.append("HasRepr")', ["C19"], "HasRepr import only added together with external")
+
+
 def make_copy(mut):
     base = os.environ.get("VERIF_TMP") or ("/dev/shm" if os.path.isdir("/dev/shm") else tempfile.gettempdir())
     d = Path(tempfile.mkdtemp(prefix="mutant-", dir=base))
@@ -220,7 +235,7 @@ def make_copy(mut):
         s = p.read_text()
         if old not in s:
             shutil.rmtree(d)
-            raise SystemExit(f"mutant {mut['id']}: old text not found in {file}")
+            raise LookupError(f"mutant {mut['id']}: old text not found in {file}")
         p.write_text(s.replace(old, new, 1))
     return d
 
@@ -269,7 +284,15 @@ def main():
     missed = 0
     for x in sel:
         props = a.props.split(",") if a.props else x["props"]
-        r = run(x, props, a.tier, a.baseline, a.seed)
+        if not props and not a.baseline:
+            print(f"{x['id']:28s} (informational, no expectation)")
+            continue
+        try:
+            r = run(x, props, a.tier, a.baseline, a.seed)
+        except LookupError as e:
+            print(f"STALE {e}")
+            missed += 1
+            continue
         for k, v in r.items():
             flag = ""
             if k != "baseline" and k in x["props"] and v[0] != 1:
